@@ -229,8 +229,10 @@ func vEmit(d Observer[int64], ctx context.Context, st vStep) {
 type vProbe struct {
 	name      string
 	subs      int
-	live      int
+	live      int // subscriptions neither unsubscribed nor ended by the source's own terminal
 	teardowns int
+	torn      []int  // per subscription: number of times its teardown ran
+	ended     []bool // per subscription: the source emitted its own terminal
 	ctxs      []context.Context
 	dests     []Observer[int64]
 	script    []vStep // played synchronously inside Subscribe when cold
@@ -244,28 +246,47 @@ func (p *vProbe) Subscribe(d Observer[int64]) Subscription {
 	return p.SubscribeWithContext(context.Background(), d)
 }
 
-func (p *vProbe) SubscribeWithContext(ctx context.Context, d Observer[int64]) Subscription {
+func (p *vProbe) register(ctx context.Context, d Observer[int64]) (int, func()) {
+	i := p.subs
 	p.subs++
 	p.live++
 	p.ctxs = append(p.ctxs, ctx)
 	p.dests = append(p.dests, d)
-	sub := NewSubscription(func() {
+	p.torn = append(p.torn, 0)
+	p.ended = append(p.ended, false)
+	return i, func() {
 		p.teardowns++
-		p.live--
-	})
+		p.torn[i]++
+		if p.torn[i] == 1 && !p.ended[i] {
+			p.live--
+		}
+	}
+}
+
+func (p *vProbe) SubscribeWithContext(ctx context.Context, d Observer[int64]) Subscription {
+	i, teardown := p.register(ctx, d)
+	sub := NewSubscription(teardown)
 	if p.cold {
 		for _, st := range p.script {
-			p.emitTo(d, ctx, st)
+			p.emitAt(i, st)
 		}
 	}
 	return sub
 }
 
-func (p *vProbe) emitTo(d Observer[int64], ctx context.Context, st vStep) {
+func (p *vProbe) emitAt(i int, st vStep) {
+	ctx := p.ctxs[i]
 	if p.itemCtx && st.kind == vkNext {
 		ctx = context.WithValue(ctx, vKeyItem, st.v)
 	}
-	vEmit(d, ctx, st)
+	if st.kind != vkNext && !p.ended[i] {
+		// a source that has emitted its own terminal holds nothing any more
+		if p.torn[i] == 0 {
+			p.live--
+		}
+		p.ended[i] = true
+	}
+	vEmit(p.dests[i], ctx, st)
 }
 
 // emit sends a step to the most recent subscriber (hot use).
@@ -273,26 +294,30 @@ func (p *vProbe) emit(st vStep) {
 	if len(p.dests) == 0 {
 		return
 	}
-	i := len(p.dests) - 1
-	p.emitTo(p.dests[i], p.ctxs[i], st)
+	p.emitAt(len(p.dests)-1, st)
+}
+
+// maxTorn is the largest number of times one subscription's teardown ran.
+func (p *vProbe) maxTorn() int {
+	m := 0
+	for _, n := range p.torn {
+		if n > m {
+			m = n
+		}
+	}
+	return m
 }
 
 // vSubProbe is the second flavour: a regular unsafe observable (subscriber path).
 func vSubProbe(p *vProbe) Observable[int64] {
 	return NewUnsafeObservableWithContext(func(ctx context.Context, d Observer[int64]) Teardown {
-		p.subs++
-		p.live++
-		p.ctxs = append(p.ctxs, ctx)
-		p.dests = append(p.dests, d)
+		i, teardown := p.register(ctx, d)
 		if p.cold {
 			for _, st := range p.script {
-				p.emitTo(d, ctx, st)
+				p.emitAt(i, st)
 			}
 		}
-		return func() {
-			p.teardowns++
-			p.live--
-		}
+		return teardown
 	})
 }
 
